@@ -19,7 +19,8 @@ theorem rwp_ite {α β : Type} {c : Prop} [Decidable c] {a₁ b₁ : M α} {a₂
 
 theorem ASim.attachRow (ok : P.Ok) {s₁ s₂ : St} (h : ASim P s₁ s₂) {g : Nat} (hd : P.DG g) {nodes : List Nat} {t : Str}
     (hg : s₁.groups[g]? = some (.row nodes t)) (rn : NodeM)
-    (hdx : Below s₁.next rn.dexitUid ∨ ¬ Invented rn.dexitUid) :
+    (hdx : Below s₁.next rn.dexitUid ∨ ¬ Invented rn.dexitUid)
+    (hrl : P.op = true → (∀ i ∈ nodes, ∀ n, s₁.nodes[i]? = some n → NoLoose n) → NoLoose rn) :
     ASim P { s₁ with nodes := s₁.nodes.push rn, groups := s₁.groups.setIfInBounds g (.row (nodes ++ [s₁.nodes.size]) t) }
       { s₂ with nodes := s₂.nodes.push (rnNode P.ρ rn),
                 groups := s₂.groups.setIfInBounds (P.γ g) (.row (nodes.map P.ν ++ [s₂.nodes.size]) t) } := by
@@ -45,6 +46,18 @@ theorem ASim.attachRow (ok : P.Ok) {s₁ s₂ : St} (h : ASim P s₁ s₂) {g : 
       rcases hi with hi | hi
       · have := (h.wf g _ hg).1 i hi; simp; omega
       · simp [hi])
+    (by
+      intro hop nodes0 t0 e0 hold
+      injection e0 with e1 e2
+      subst e1; subst e2
+      refine ⟨_, rfl, fun i hi => ?_⟩
+      simp only [List.mem_append, List.mem_singleton] at hi
+      rcases hi with hi | hi
+      · exact .inl hi
+      · subst hi
+        refine .inr ⟨h.ndom _ (Nat.le_refl _), rn, by simp, hrl hop ?_⟩
+        intro i hi n hni
+        exact hold i hi n (getElem?_push_lt' hni))
   have e : mapGrpAt P g (.row (nodes ++ [s₁.nodes.size]) t) = .row (nodes.map P.ν ++ [s₂.nodes.size]) t := by
     simp [mapGrpAt, mapGrp, h0]
   rw [e] at a2
@@ -77,6 +90,7 @@ theorem ASim.attachNoop (ok : P.Ok) {s₁ s₂ : St} (h : ASim P s₁ s₂) {g :
       intro i hi
       simp only [gnodes, List.mem_singleton] at hi
       simp [hi])
+    (by intro _ nodes0 t0 e0; cases e0)
   have e : mapGrpAt P g (.noop ps (some s₁.nodes.size)) =
       .noop (ps.map fun p => (P.γ p.1, p.2)) (some s₂.nodes.size) := by
     simp [mapGrpAt, mapGrp, h0]
@@ -93,7 +107,8 @@ theorem getElem?_push_lt {α : Type} {a : Array α} {i : Nat} {x y : α} (h : a[
 theorem routerBehind_rel (ok : P.Ok) {s₁ s₂ : St} (h : ASim P s₁ s₂) {g i : Nat} (hdg : P.DG g) (hdi : P.DN i)
     (nodes : List Nat) (rowType : Str) (n : NodeM)
     (hg : s₁.groups[g]? = some (.row nodes rowType)) (hn : s₁.nodes[i]? = some n)
-    (operandV : Str) (waitT : Option Nat) :
+    (operandV : Str) (waitT : Option Nat)
+    (hi : i ∈ nodes) (hk : n.kind = .basic) (hw : waitT = none ∨ waitT = some 0) :
     rwp (routerBehind g nodes rowType i n operandV waitT)
       (routerBehind (P.γ g) (nodes.map P.ν) rowType (P.ν i) (rnNode P.ρ n) operandV waitT) s₁ s₂
       (fun a t₁ b t₂ => RPost P s₁ s₂ (fun a b => b = (P.ν a.1, rnNode P.ρ a.2)) a t₁ b t₂ ∧
@@ -105,8 +120,12 @@ theorem routerBehind_rel (ok : P.Ok) {s₁ s₂ : St} (h : ASim P s₁ s₂) {g 
   · simp only [he, if_true]; exact rwp_fail_left _ _ _ _ _
   simp only [he, if_false]
   have a0 := bump_asim h k0
-  refine rwp_bind_id (newSwitch_rel _ _ _) a0.idSync ?_
-  intro sw k1
+  have hsw : wp (newSwitch operandV none waitT) { s₁ with next := s₁.next + k0 }
+      (fun sw _ => sw.cats = [] ∧ sw.noResp = none) := by
+    rw [wp_newSwitch]
+    rcases hw with rfl | rfl <;> exact ⟨rfl, rfl⟩
+  refine rwp_bind_id_u hsw (newSwitch_rel _ _ _) a0.idSync ?_
+  intro sw k1 ⟨hsw1, hsw2⟩
   have a1 := bump_asim a0 k1
   refine rwp_bind_newRouterNode u .switch (.sw (sw.setDflt n.dexitDest)) a1.idSync ?_
   have a2 := bump_asim a1 1
@@ -118,10 +137,22 @@ theorem routerBehind_rel (ok : P.Ok) {s₁ s₂ : St} (h : ASim P s₁ s₂) {g 
   dsimp only
   wp_simp [wp_addNode, wp_setGrp, wp_fresh', wp_setNode]
   have h0 : P.ν s₁.nodes.size = s₂.nodes.size := by simpa using h.nsync 0
-  have a3 := a2.attachRow ok hdg (nodes := nodes) (t := rowType) hg rn (.inl hrd)
+  have a3 := a2.attachRow ok hdg (nodes := nodes) (t := rowType) hg rn (.inl hrd) (by
+    intro hop hold
+    have hnl : NoLoose n := hold i hi n hn
+    have hdd := hnl.2 hk
+    rw [← hrn]
+    refine ⟨?_, fun e => by cases e⟩
+    rw [hasLoose_sw (r := sw.setDflt n.dexitDest) (by rfl)]
+    intro c hc
+    simp only [SwitchR.allCats, SwitchR.setDflt, hsw1, hsw2, List.nil_append, Option.toList, List.append_nil,
+      List.mem_singleton] at hc
+    subst hc
+    exact hdd)
   have a4 := bump_asim a3 1
   have a5 := a4.setNode ok hdi (old := n) (n' := { n with dexitUid := tid (s₁.next + k0 + k1 + 1), dexitDest := .node u })
     (getElem?_push_lt hn) (.inr ⟨s₁.next + k0 + k1 + 1, by simp, rfl⟩)
+    (fun _ hl => noLoose_setDexit n _ _ (fun e => by cases e) hl)
   have hid : P.ρ (tid (s₁.next + k0 + k1 + 1)) = tid (s₂.next + k0 + k1 + 1) := by
     have := h.idsync (k0 + k1 + 1)
     simpa [Nat.add_assoc] using this
@@ -133,7 +164,8 @@ theorem routerBehind_rel (ok : P.Ok) {s₁ s₂ : St} (h : ASim P s₁ s₂) {g 
     simp [Array.getElem?_setIfInBounds, this]
 
 theorem nodeAddChoice_rel (ok : P.Ok) {s₁ s₂ : St} (h : ASim P s₁ s₂) {i : Nat} (hd : P.DN i) (n : NodeM)
-    (hn : s₁.nodes[i]? = some n) (operandV ctype : Str) (args : List (Option Str)) (c : Cond) (d : Dest) :
+    (hn : s₁.nodes[i]? = some n) (operandV ctype : Str) (args : List (Option Str)) (c : Cond) (d : Dest)
+    (hdn : P.op = true → d ≠ Dest.none) :
     rwp (nodeAddChoice i n operandV ctype args c d)
       (nodeAddChoice (P.ν i) (rnNode P.ρ n) operandV ctype args c (rnDest P.ρ d)) s₁ s₂
       (RPost P s₁ s₂ (fun _ _ => True)) := by
@@ -144,22 +176,25 @@ theorem nodeAddChoice_rel (ok : P.Ok) {s₁ s₂ : St} (h : ASim P s₁ s₂) {i
     cases rt with
     | sw r =>
       simp only [rnNode_router, hr, Option.map_some, rnRouter]
-      refine rwp_bind_id (addChoice_rel ok.hρ r _ _ _ _ d false) h.idSync ?_
-      intro r' k
+      refine rwp_bind_id_u (addChoice_spec r _ _ _ _ d false s₁) (addChoice_rel ok.hρ r _ _ _ _ d false) h.idSync ?_
+      intro r' k ⟨_, _, _, hD, _⟩
       rw [rwp_iff_wp, wp_setNode, wp_setNode]
-      exact ⟨trivial, (bump_asim h k).setNode ok hd hn (n' := { n with router := some (.sw r') }) (.inl rfl),
+      exact ⟨trivial, (bump_asim h k).setNode ok hd hn (n' := { n with router := some (.sw r') }) (.inl rfl)
+        (fun hop hl => noLoose_sw hr hl (hD (· ≠ Dest.none) (hdn hop))),
         ⟨rfl, rfl, rfl⟩, ⟨rfl, rfl, rfl⟩⟩
     | rnd r =>
       simp only [rnNode_router, hr, Option.map_some, rnRouter]
-      refine rwp_bind_id (randomAddChoice_rel ok.hρ r _ d) h.idSync ?_
-      intro r' k
+      refine rwp_bind_id_u (randomAddChoice_spec r _ d s₁) (randomAddChoice_rel ok.hρ r _ d) h.idSync ?_
+      intro r' k ⟨_, _, _, hD⟩
       rw [rwp_iff_wp, wp_setNode, wp_setNode]
-      exact ⟨trivial, (bump_asim h k).setNode ok hd hn (n' := { n with router := some (.rnd r') }) (.inl rfl),
+      exact ⟨trivial, (bump_asim h k).setNode ok hd hn (n' := { n with router := some (.rnd r') }) (.inl rfl)
+        (fun hop hl => noLoose_rnd hr hl (hD (· ≠ Dest.none) (hdn hop))),
         ⟨rfl, rfl, rfl⟩, ⟨rfl, rfl, rfl⟩⟩
 
 theorem rowExitCond_rel (ok : P.Ok) {s₁ s₂ : St} (h : ASim P s₁ s₂) {g i : Nat} (hdg : P.DG g) (hdi : P.DN i)
     (nodes : List Nat) (rowType : Str) (n : NodeM)
-    (hg : s₁.groups[g]? = some (.row nodes rowType)) (hn : s₁.nodes[i]? = some n) (d : Dest) (c : Cond) :
+    (hg : s₁.groups[g]? = some (.row nodes rowType)) (hn : s₁.nodes[i]? = some n) (d : Dest) (c : Cond)
+    (hdn : P.op = true → d ≠ Dest.none) (hi : i ∈ nodes) :
     rwp (rowExitCond g nodes rowType i n d c)
       (rowExitCond (P.γ g) (nodes.map P.ν) rowType (P.ν i) (rnNode P.ρ n) (rnDest P.ρ d) c) s₁ s₂
       (RPost P s₁ s₂ (fun _ _ => True)) := by
@@ -168,18 +203,24 @@ theorem rowExitCond_rel (ok : P.Ok) {s₁ s₂ : St} (h : ASim P s₁ s₂) {g i
   rw [rwp_bind]
   by_cases hk : n.kind = .basic
   · simp only [hk, if_true]
-    refine rwp_mono (routerBehind_rel ok h hdg hdi nodes rowType n hg hn _ _) ?_
-    intro a t₁ b t₂ ⟨⟨hb, hs, e1, e2⟩, hnn, hdn⟩
+    refine rwp_mono (routerBehind_rel ok h hdg hdi nodes rowType n hg hn _ _ hi hk (by
+      split
+      · exact .inl rfl
+      · split
+        · exact .inl rfl
+        · exact .inr rfl)) ?_
+    intro a t₁ b t₂ ⟨⟨hb, hs, e1, e2⟩, hnn, hdn'⟩
     subst b
-    refine rwp_mono (nodeAddChoice_rel ok hs hdn a.2 hnn _ _ _ c d) ?_
+    refine rwp_mono (nodeAddChoice_rel ok hs hdn' a.2 hnn _ _ _ c d hdn) ?_
     intro _ u₁ _ u₂ ⟨_, hs', e1', e2'⟩
     exact ⟨trivial, hs', e1.trans e1', e2.trans e2'⟩
   · simp only [hk, if_false]
     rw [rwp_pure]
-    exact nodeAddChoice_rel ok h hdi n hn _ _ _ c d
+    exact nodeAddChoice_rel ok h hdi n hn _ _ _ c d hdn
 
 theorem rowAddExit_rel (ok : P.Ok) {s₁ s₂ : St} (h : ASim P s₁ s₂) {g : Nat} (hdg : P.DG g)
-    (nodes : List Nat) (rowType : Str) (hg : s₁.groups[g]? = some (.row nodes rowType)) (d : Dest) (c : Cond) :
+    (nodes : List Nat) (rowType : Str) (hg : s₁.groups[g]? = some (.row nodes rowType)) (d : Dest) (c : Cond)
+    (hdn : P.op = true → d ≠ Dest.none) :
     rwp (rowAddExit g nodes rowType d c)
       (rowAddExit (P.γ g) (nodes.map P.ν) rowType (rnDest P.ρ d) c) s₁ s₂ (RPost P s₁ s₂ (fun _ _ => True)) := by
   unfold rowAddExit
@@ -194,21 +235,22 @@ theorem rowAddExit_rel (ok : P.Ok) {s₁ s₂ : St} (h : ASim P s₁ s₂) {g : 
     intro n t₁ n' t₂ ⟨hn', hn, e1, e2⟩
     subst n'; subst t₁; subst t₂
     simp only [rnNode_kind]
-    refine rwp_ite (fun _ => rowExitBlank_rel ok h hdi n hn d) fun _ => ?_
-    refine rwp_ite (fun _ => rowExitEnter_rel ok h hdi c d) fun _ => ?_
-    refine rwp_ite (fun _ => rowExitHook_rel ok h hdi c d) fun _ => ?_
-    refine rwp_ite (fun _ => rowExitNoResp_rel ok h hdi n hn d) fun _ => ?_
-    exact rowExitCond_rel ok h hdg hdi nodes rowType n hg hn d c
+    refine rwp_ite (fun _ => rowExitBlank_rel ok h hdi n hn d hdn) fun _ => ?_
+    refine rwp_ite (fun _ => rowExitEnter_rel ok h hdi c d hdn) fun _ => ?_
+    refine rwp_ite (fun _ => rowExitHook_rel ok h hdi c d hdn) fun _ => ?_
+    refine rwp_ite (fun _ => rowExitNoResp_rel ok h hdi n hn d hdn) fun _ => ?_
+    exact rowExitCond_rel ok h hdg hdi nodes rowType n hg hn d c hdn (mem_of_getLast? hl)
 
-theorem noopRouterExit_rel (ok : P.Ok) {s₁ s₂ : St} (h : ASim P s₁ s₂) {j : Nat} (hd : P.DN j) (d : Dest) (c : Cond) :
+theorem noopRouterExit_rel (ok : P.Ok) {s₁ s₂ : St} (h : ASim P s₁ s₂) {j : Nat} (hd : P.DN j) (d : Dest) (c : Cond)
+    (hdn : P.op = true → d ≠ Dest.none) :
     rwp (noopRouterExit j d c) (noopRouterExit (P.ν j) (rnDest P.ρ d) c) s₁ s₂
       (RPost P s₁ s₂ (fun _ _ => True)) := by
   unfold noopRouterExit
-  refine rwp_ite (fun _ => updSwitch_rel ok h hd (fun r => setDfltM_rel r d)) fun _ => ?_
-  exact updSwitch_rel ok h hd (fun r => addChoice_rel ok.hρ r _ _ _ _ d false)
+  refine rwp_ite (fun _ => updSwitch_rel ok h hd (fun r => setDfltM_rel r d) d hdn (swUpd_setDflt d)) fun _ => ?_
+  exact updSwitch_rel ok h hd (fun r => addChoice_rel ok.hρ r _ _ _ _ d false) d hdn (swUpd_addChoice _ _ _ _ d false)
 
 theorem connectIfLoose_rel (ok : P.Ok) {s₁ s₂ : St} (h : ASim P s₁ s₂) (f₁ f₂ : Nat) {ch : Nat} (hd : P.DG ch)
-    (ht : ¬ P.T ch) (d : Dest) :
+    (ht : ¬ P.T ch) (d : Dest) (hdn : P.op = true → d ≠ Dest.none) :
     rwp (connectIfLoose f₁ d ch) (connectIfLoose f₂ (rnDest P.ρ d) (P.γ ch)) s₁ s₂
       (RPost P s₁ s₂ (fun _ _ => True)) := by
   unfold connectIfLoose
@@ -217,18 +259,19 @@ theorem connectIfLoose_rel (ok : P.Ok) {s₁ s₂ : St} (h : ASim P s₁ s₂) (
   intro a t₁ b t₂ ⟨hb, e1, e2⟩
   subst b; subst t₁; subst t₂
   cases a with
-  | true => simp only [if_true]; exact connectLoose_rel ok f₁ f₂ ch d s₁ s₂ h hd ht
+  | true => simp only [if_true]; exact connectLoose_rel ok d hdn f₁ f₂ ch s₁ s₂ h hd ht
   | false =>
     simp only [Bool.false_eq_true, if_false]
     rw [rwp_pure]; exact ⟨trivial, h, SEq.refl _, SEq.refl _⟩
 
 theorem addExit_rel (ok : P.Ok) : ∀ (f₁ f₂ j : Nat) (d : Dest) (c : Cond) (s₁ s₂ : St), ASim P s₁ s₂ → P.DG j → ¬ P.T j →
+    (P.op = true → d ≠ Dest.none) →
     rwp (addExit f₁ j d c) (addExit f₂ (P.γ j) (rnDest P.ρ d) c) s₁ s₂ (RPost P s₁ s₂ (fun _ _ => True)) := by
   intro f₁
   induction f₁ with
-  | zero => intro f₂ j d c s₁ s₂ _ _ _; unfold addExit; exact rwp_fail_left _ _ _ _ _
+  | zero => intro f₂ j d c s₁ s₂ _ _ _ _; unfold addExit; exact rwp_fail_left _ _ _ _ _
   | succ f₁ ih =>
-    intro f₂ j d c s₁ s₂ h hd ht
+    intro f₂ j d c s₁ s₂ h hd ht hdn
     cases f₂ with
     | zero =>
       rw [show addExit 0 (P.γ j) (rnDest P.ρ d) c = fail .fuel by unfold addExit; rfl]
@@ -244,24 +287,42 @@ theorem addExit_rel (ok : P.Ok) : ∀ (f₁ f₂ j : Nat) (d : Dest) (c : Cond) 
       cases g with
       | row nodes t =>
         simp only [mapGrpAt_row]
-        exact rowAddExit_rel ok h hd nodes t hg d c
+        exact rowAddExit_rel ok h hd nodes t hg d c hdn
       | block cs =>
-        have hne := ok.ne_bx ht
-        simp only [mapGrpAt_block_ne P hne]
+        have main : rwp (cs.forM (connectIfLoose (f₁ + 1) d))
+            ((cs.map P.γ).forM (connectIfLoose (f₂ + 1) (rnDest P.ρ d))) s₁ s₂ (RPost P s₁ s₂ (fun _ _ => True)) := by
+          refine arel_forM P.γ cs _ _ h ?_
+          intro x hx u₁ u₂ hu
+          exact connectIfLoose_rel ok hu (f₁ + 1) (f₂ + 1) (hcl.2 x (by simp [grefs, hx]))
+            (hra x (by simp [grefs, hx])) d hdn
+        have hch : ∃ cs', mapGrpAt P j (.block cs) = .block cs' ∧
+            rwp (cs.forM (connectIfLoose (f₁ + 1) d))
+              (cs'.forM (connectIfLoose (f₂ + 1) (rnDest P.ρ d))) s₁ s₂ (RPost P s₁ s₂ (fun _ _ => True)) := by
+          cases hop : P.op with
+          | false => exact ⟨_, mapGrpAt_block_ne P (ok.ne_bx hop ht) cs, main⟩
+          | true =>
+            by_cases hjb : j = P.bx
+            · subst hjb
+              refine ⟨_, mapGrpAt_block_bx P (ok.hgx hop).1 cs, ?_⟩
+              show rwp _ (connectIfLoose (f₂ + 1) (rnDest P.ρ d) P.gx >>= fun _ =>
+                (cs.map P.γ).forM (connectIfLoose (f₂ + 1) (rnDest P.ρ d))) s₁ s₂ _
+              exact rwp_skip_right (c := PUnit.unit)
+                (wp_mono (inert_connectIfLoose (h.pl hop) (f₂ + 1) _) (fun _ _ e => ⟨e, rfl⟩)) main
+            · exact ⟨_, mapGrpAt_block_ne P (.inl hjb) cs, main⟩
+        obtain ⟨cs', ecs, hmain⟩ := hch
+        simp only [ecs]
         by_cases hb : c.blank = true
         · simp only [hb, if_true]
           rw [rwp_bind]
-          refine rwp_mono (hasLoose_rel ok h (f₁ + 1) (f₂ + 1) j hd ht) ?_
+          have hl := hasLoose_rel ok h (f₁ + 1) (f₂ + 1) j hd ht
+          refine rwp_mono hl ?_
           intro a t₁ b t₂ ⟨hb', e1, e2⟩
           subst b; subst t₁; subst t₂
           cases a with
           | false => simp only [Bool.false_eq_true, if_false]; exact rwp_fail_left _ _ _ _ _
           | true =>
             simp only [if_true]
-            refine arel_forM P.γ cs _ _ h ?_
-            intro x hx u₁ u₂ hu
-            exact connectIfLoose_rel ok hu (f₁ + 1) (f₂ + 1) (hcl.2 x (by simp [grefs, hx]))
-              (hra x (by simp [grefs, hx])) d
+            exact hmain
         · simp only [hb, if_false]; exact rwp_fail_left _ _ _ _ _
       | noop ps router =>
         simp only [mapGrpAt_noop]
@@ -270,14 +331,14 @@ theorem addExit_rel (ok : P.Ok) : ∀ (f₁ f₂ j : Nat) (d : Dest) (c : Cond) 
         cases router with
         | some i =>
           simp only [Option.map_some]
-          exact noopRouterExit_rel ok h (hcl.1 i (by simp [gnodes])) d c
+          exact noopRouterExit_rel ok h (hcl.1 i (by simp [gnodes])) d c hdn
         | none =>
           simp only [Option.map_none]
           by_cases hb : c.blank = true
           · simp only [hb, if_true]
             refine arel_forM (fun p : Nat × Cond => (P.γ p.1, p.2)) ps _ _ h ?_
             intro p hp u₁ u₂ hu
-            exact ih f₂ p.1 d p.2 u₁ u₂ hu (hps p hp).1 (hps p hp).2
+            exact ih f₂ p.1 d p.2 u₁ u₂ hu (hps p hp).1 (hps p hp).2 hdn
           · simp only [hb, if_false]
             by_cases hv : c.var.isEmpty = true
             · simp only [hv, if_true]; exact rwp_fail_left _ _ _ _ _
@@ -299,14 +360,14 @@ theorem addExit_rel (ok : P.Ok) : ∀ (f₁ f₂ j : Nat) (d : Dest) (c : Cond) 
             rw [rwp_bind, rwp_iff_wp]
             wp_simp [wp_addNode, wp_setGrp]
             rw [rwp_bind]
-            have hdn : P.DN s₁.nodes.size := h.ndom _ (Nat.le_refl _)
+            have hdn' : P.DN s₁.nodes.size := h.ndom _ (Nat.le_refl _)
             have h0 : P.ν s₁.nodes.size = s₂.nodes.size := by simpa using h.nsync 0
             refine rwp_mono (arel_forM (fun p : Nat × Cond => (P.γ p.1, p.2)) ps
               (fun p => addExit f₁ p.1 (.node u) p.2) (fun p => addExit f₂ p.1 (.node (P.ρ u)) p.2) a3 ?_) ?_
             · intro p hp u₁ u₂ hu
-              exact ih f₂ p.1 (.node u) p.2 u₁ u₂ hu (hps p hp).1 (hps p hp).2
+              exact ih f₂ p.1 (.node u) p.2 u₁ u₂ hu (hps p hp).1 (hps p hp).2 (fun _ e => by cases e)
             · intro _ u₁ _ u₂ ⟨_, hu, e1, e2⟩
-              have := noopRouterExit_rel ok hu hdn d c
+              have := noopRouterExit_rel ok hu hdn' d c hdn
               rw [h0] at this
               refine rwp_mono this ?_
               intro _ v₁ _ v₂ ⟨_, hv', e1', e2'⟩
@@ -345,13 +406,42 @@ theorem entryNode_rel (ok : P.Ok) {s₁ s₂ : St} (h : ASim P s₁ s₂) : ∀ 
           exact ⟨⟨rfl, hcl.1 i (List.mem_of_mem_head? hh)⟩, rfl, rfl⟩
       | noop ps router => exact rwp_fail_left _ _ _ _ _
       | block cs =>
-        have hne := ok.ne_bx ht
-        simp only [mapGrpAt_block_ne P hne, head?_map']
-        cases hh : cs.head? with
-        | none => exact rwp_fail_left _ _ _ _ _
-        | some c =>
-          simp only [Option.map_some]
-          have hc : c ∈ cs := List.mem_of_mem_head? hh
-          exact ih f₂ c (hcl.2 c (by simp [grefs, hc])) (hra c (by simp [grefs, hc]))
+        have main : rwp (match cs.head? with
+              | some c => entryNode f₁ c
+              | none => fail (.exc "IndexError: empty block has no entry node"))
+            (match (cs.map P.γ).head? with
+              | some c => entryNode f₂ c
+              | none => fail (.exc "IndexError: empty block has no entry node")) s₁ s₂
+            (RO (fun a b => b = P.ν a ∧ P.DN a) s₁ s₂) := by
+          simp only [head?_map']
+          cases hh : cs.head? with
+          | none => exact rwp_fail_left _ _ _ _ _
+          | some c =>
+            simp only [Option.map_some]
+            have hc : c ∈ cs := List.mem_of_mem_head? hh
+            exact ih f₂ c (hcl.2 c (by simp [grefs, hc])) (hra c (by simp [grefs, hc]))
+        cases hop : P.op with
+        | false =>
+          simp only [mapGrpAt_block_ne P (ok.ne_bx hop ht)]
+          exact main
+        | true =>
+          by_cases hjb : j = P.bx
+          · subst hjb
+            simp only [mapGrpAt_block_bx P (ok.hgx hop).1, List.head?_cons]
+            -- the twin's block starts with its begin row: no entry node
+            obtain ⟨ps, hgx, _⟩ := h.pl hop
+            have hw : wp (entryNode f₂ P.gx) s₂ (fun _ _ => False) := by
+              cases f₂ with
+              | zero => unfold entryNode; rw [wp_fail]; trivial
+              | succ f₂ =>
+                unfold entryNode
+                rw [wp_bind, wp_getGrp]
+                intro g hg'
+                rw [hgx] at hg'; injection hg' with hg'; subst hg'
+                rw [wp_fail]; trivial
+            intro a t₁ b t₂ _ h2
+            exact (wp_of_run hw h2).elim
+          · simp only [mapGrpAt_block_ne P (.inl hjb)]
+            exact main
 
 end Rpft.Compile
